@@ -53,12 +53,16 @@ SYMRT_HARNESS(C09_powerset) {
     int when = symrt::choose("when", 2);
     if (when == 1) A.ps.omega_reduce();
     PS copy(A.ps); PS assigned(n, EMPTY); assigned = A.ps;
-    int mut = symrt::choose("mut", 5);
+    int mut = symrt::choose("mut", 7);
     if (mut == 0) A.ps.add_constraint(Variable(0) >= 0);
     else if (mut == 1) A.ps.affine_image(Variable(0), Variable(0) + 1);
     else if (mut == 2) { if (A.ps.size() > 0) A.ps.drop_disjunct(A.ps.begin()); }
     else if (mut == 3) A.ps.add_disjunct(C_Polyhedron(n));
-    else A.ps.pairwise_reduce();
+    else if (mut == 4) A.ps.pairwise_reduce();
+    else if (mut == 5) A.ps.collapse();
+    else { // disjuncts pushed by reference into another powerset, which is then collapsed
+      PS acc(n, EMPTY); acc.upper_bound_assign(A.ps); C_Polyhedron extra(n); extra.add_constraint(Variable(0) == 7); acc.add_disjunct(extra); acc.collapse();
+      same_union(A.ps, A, tag + ": a powerset changed when another one sharing its disjuncts was collapsed"); }
     same_union(copy, A, tag + ": a copy changed when the original was modified");
     same_union(assigned, A, tag + ": an assigned copy changed when the original was modified");
     symrt::require(copy.OK() && assigned.OK() && A.ps.OK(), tag + ": OK()");
